@@ -349,7 +349,9 @@ pub struct ConnCfg {
     /// password of 20 000 characters / a client name of 40 000 characters (too long for the Client Info PDU / the
     /// confirm-active: the client gives up by itself), then re-configured; 10 / 11 = one earlier attempt with THIS
     /// configuration answered with RDP_NEG_FAILURE / one earlier complete connection with it, after which connect() is
-    /// simply called again (no setter is touched: a retry)
+    /// simply called again (no setter is touched: a retry); 12 = one earlier attempt with THIS configuration
+    /// against a server that hangs up right after the security phase (TLS / CredSSP done, nothing of MCS answered), then
+    /// connect() is called again, no setter touched
     pub earlier_connections: u8,
 }
 
@@ -386,6 +388,17 @@ pub fn connector(c: &ConnCfg) -> Connector {
         3 => flags(creds(flags(base))),
         // the flag setters in the opposite order (certificate checking first, auto logon last), then the credentials
         5 => creds(base.check_certificate(c.check_certificate).blank_creds(c.blank_creds).set_restricted_admin_mode(c.restricted_admin).use_nla(c.use_nla).auto_logon(c.client.auto_logon)),
+        // every setting made (credentials first), then each boolean setter in turn called with the opposite value and with the
+        // real one again: a setter may only touch its own setting
+        6 => {
+            let k = flags(creds(base));
+            let k = k.use_nla(!c.use_nla).use_nla(c.use_nla);
+            let k = k.blank_creds(!c.blank_creds).blank_creds(c.blank_creds);
+            let k = k.set_restricted_admin_mode(!c.restricted_admin).set_restricted_admin_mode(c.restricted_admin);
+            let k = k.auto_logon(!c.client.auto_logon).auto_logon(c.client.auto_logon);
+            let k = k.check_certificate(!c.check_certificate).check_certificate(c.check_certificate);
+            k.use_nla(!c.use_nla).use_nla(c.use_nla)
+        }
         // only the calls that ask for something: every setting equal to the documented default of Connector::new()
         // (800x600, US layout, "rdp-rs", NLA on, no auto logon, no restricted admin, full credentials, no certificate
         // check) is left to that default — "not requested" means the builder call was never made
@@ -478,7 +491,7 @@ pub fn tls_connect_fragmented(cfg: &ConnCfg, mut p: ServerParams, devs: Vec<Devi
             other.use_hash = false;
         } else if cfg.earlier_connections == 9 {
             other.client.name = "n".repeat(40000);
-        } else if cfg.earlier_connections == 10 || cfg.earlier_connections == 11 {
+        } else if cfg.earlier_connections == 10 || cfg.earlier_connections == 11 || cfg.earlier_connections == 12 {
             // same configuration, built the way this case builds it
             other.builder_order = cfg.builder_order;
         } else if cfg.earlier_connections != 4 {
@@ -498,6 +511,9 @@ pub fn tls_connect_fragmented(cfg: &ConnCfg, mut p: ServerParams, devs: Vec<Devi
             p0.acct_user = other.client.user.clone();
             p0.acct_domain = other.client.domain.clone();
             p0.acct_password = other.client.password.clone();
+            if cfg.earlier_connections == 12 {
+                p0.hang_up_after_security = true;
+            }
             if cfg.earlier_connections == 3 || (cfg.earlier_connections >= 5 && cfg.earlier_connections != 10) {
                 p0.reactivations = 0;
                 p0.selected = if other.use_nla { 2 } else { 1 };
